@@ -74,12 +74,20 @@ def write_model(system, model, model_path,
     _increment_backups(model, root, max_backups)
 
     serializer = _get_serializer(version)
-    serializer.ModelWriter(system, model, root,
-                           is_zip=is_zip,
-                           log_input=log_input,
-                           compression=compression,
-                           compresslevel=compresslevel
-                           ).write_model()
+    try:
+        serializer.ModelWriter(system, model, root,
+                               is_zip=is_zip,
+                               log_input=log_input,
+                               compression=compression,
+                               compresslevel=compresslevel
+                               ).write_model()
+    except BaseException:
+        # root was moved or removed by _increment_backups, so a directory
+        # at root is the partial output of the failed writer. Remove it,
+        # otherwise the next write backs it up as if it were a saved model.
+        if not is_zip and root.is_dir():
+            shutil.rmtree(root, ignore_errors=True)
+        raise
 
     if model.path != root:
         model.path = root
